@@ -124,8 +124,12 @@ func VxC10Restore() {
 	dir := vx.TempDir()
 	out := dir + "/restore/db"
 	preexisting := vx.Fault("outputExists")
+	existing := []byte{9, 9, 9}
 	if preexisting {
-		vx.FSWriteFile(out, []byte{9, 9, 9})
+		if vx.Fault("outputIsEmptyFile") {
+			existing = []byte{} // what SQLite leaves when a database was opened but nothing committed yet
+		}
+		vx.FSWriteFile(out, existing)
 	}
 	mode := IntegrityCheckNone
 	if vx.Fault("withIntegrityCheck") {
@@ -138,7 +142,7 @@ func VxC10Restore() {
 	vx.FSFaults(false)
 
 	if preexisting {
-		vx.Assert("existing-output-refused-and-untouched", err != nil && bytes.Equal(vx.FSReadFile(out), []byte{9, 9, 9}))
+		vx.Assert("existing-output-refused-and-untouched", err != nil && vx.FSExists(out) && bytes.Equal(vx.FSReadFile(out), existing))
 		return
 	}
 	vx.Assert("published-file-was-flushed-and-closed", vx.FSEvents("rename-of-unsynced-file") == 0)
@@ -177,4 +181,39 @@ func VxC10Integrity() {
 		return
 	}
 	vx.Assert("success-means-correct-database", vx.FSExists(out) && vxDBEquals(out, expect))
+}
+
+// VxC10Hole: a replica that has been idle longer than the level-0 retention: a
+// snapshot and two compacted files, no level-0 files. With the middle file gone
+// the restore to the latest state must fail (the newest file lies beyond a hole),
+// not stop before the hole and report success.
+func VxC10Hole() {
+	c := &vxDamageClient{}
+	t := [5]uint64{vx.U64("tag"), vx.U64("tag"), vx.U64("tag"), vx.U64("tag"), vx.U64("tag")}
+	c.put(&vxLTX{level: SnapshotLevel, min: 1, max: 1, commit: 2, ts: 1000, pages: []vxPg{{1, t[0]}, {2, t[1]}}})
+	lvl := 1 + vx.Choose("level", 0, 1)
+	mid := &vxLTX{level: lvl, min: 2, max: 3, commit: 2, ts: 2000, pages: []vxPg{{1, t[2]}}}
+	last := &vxLTX{level: lvl, min: 4, max: 5, commit: 2, ts: 3000, pages: []vxPg{{2, t[3]}}}
+	c.put(mid)
+	c.put(last)
+	removed := vx.Fault("middleFileDeleted")
+	if removed {
+		// deleted from the replica: neither listed nor readable
+		var keep []*ltx.FileInfo
+		for _, f := range c.files {
+			if !(f.Level == lvl && f.MinTXID == 2) {
+				keep = append(keep, f)
+			}
+		}
+		c.files = keep
+		delete(c.data, vxKey(lvl, 2, 3))
+	}
+	out := vx.TempDir() + "/restore/db"
+	r := NewReplicaWithClient(nil, c)
+	err := r.Restore(context.Background(), RestoreOptions{OutputPath: out, IntegrityCheck: IntegrityCheckNone})
+	if removed {
+		vx.Assert("hole-in-the-chain-is-an-error", err != nil && !vx.FSExists(out))
+		return
+	}
+	vx.Assert("complete-chain-restores", err == nil && vxDBEquals(out, []uint64{t[2], t[3]}))
 }
